@@ -254,7 +254,11 @@ def _inlinable_body(fi):
         elif isinstance(n, (ast.AugAssign, ast.AnnAssign)):
             tgts = [n.target]
         for t in tgts:
-            for sub in ast.walk(t):
+            flat = [t]
+            while any(isinstance(x, (ast.Tuple, ast.List, ast.Starred)) for x in flat):
+                flat = [y for x in flat for y in (x.elts if isinstance(x, (ast.Tuple, ast.List)) else [x.value] if isinstance(x, ast.Starred) else [x])]
+            for sub in flat:
+                # what is written is the target's own spine; names inside an index are only read
                 if isinstance(sub, (ast.Subscript, ast.Attribute)):
                     root = sub
                     while isinstance(root, (ast.Subscript, ast.Attribute)):
